@@ -7,11 +7,15 @@ Reading guide
                        `context.variables` dict of the caller, `h` the caller's xs:dateTime
                        objects, `c.tz` the implicit timezone, `n` a bound on the nesting depth.
                        The answer carries the dict and the objects *as they are afterwards*.
-* `c.q = Quirks.fixed`  : the tree with the three `fix:` commits of branch fix-c05 (F05, F16, F05b);
-  `Quirks.lexical`      : … plus the repair of F05c (branch fix-c05c): the callee sees its closure only;
-  `Quirks.pinned`       : the pinned tree 05acc20 (kept so that the defects stay checked facts).
-  Every theorem names the repairs it needs as hypotheses on the flags, so it applies to whichever tree
-  the check finds (the harness probes the live code for `calleeLexical` and ties the matching model).
+* `c.q = Quirks.lexical` : the REFERENCE tree /repo: all four repairs are in (F05 `callCopies`, F05b
+                       `operandCopied`, F05c `calleeLexical`; `adjustCopied` holds on every real tree);
+  `Quirks.fixed`        : the tree without the F05c repair (callee also sees the caller's variables);
+  `Quirks.pinned`       : the pinned tree 05acc20.
+  Every theorem names the repairs it needs as hypotheses on the flags and each hypothesis is shown
+  necessary by a `decide`d witness about the flag switched off; the harness probes the live code for
+  `calleeLexical` and ties the matching model.
+* a failure of the model is `.error (err, ρ', h')`: the exception together with the caller's dict
+                       and objects as the partial evaluation left them.
 * `sem tz h n e ρ`   : the lexical, side-effect free semantics of XPath 3.1 (EPV/Spec/LexicalSem.lean).
 * `runHistory q n e steps h` : one parsed expression evaluated once per step (own variables, own
                        implicit timezone), the caller's objects persisting from step to step.
@@ -37,6 +41,15 @@ theorem eval_heap_unchanged (c : Cfg) (hq : c.q.operandCopied = true) (hq' : c.q
     (v : Val) (ρ' : Env) (h' : Heap) (he : eval c n e ρ h = .ok (v, ρ', h')) : h' = h :=
   (eval_frame c n e ρ h v ρ' h' he).2 ((Quirks.heapSafe_iff _).2 ⟨hq, hq'⟩)
 
+/-- FAILING evaluations are pure too: when an evaluation raises — in the middle of a `for`, a
+`let`, a function body, after any number of successful sub-evaluations — the caller's variables
+dict and the caller's objects are exactly as they were before the evaluation started. -/
+theorem failing_eval_state_unchanged (c : Cfg) (hq1 : c.q.callCopies = true) (hq2 : c.q.operandCopied = true)
+    (hq3 : c.q.adjustCopied = true) (n : Nat) (e : Expr) (ρ : Env) (h : Heap)
+    (er : Err) (ρ' : Env) (h' : Heap) (he : eval c n e ρ h = .error (er, ρ', h')) : ρ' = ρ ∧ h' = h :=
+  ⟨(eval_frameE c n e ρ h er ρ' h' he).1 hq1,
+   (eval_frameE c n e ρ h er ρ' h' he).2 ((Quirks.heapSafe_iff _).2 ⟨hq2, hq3⟩)⟩
+
 /-- what a fresh evaluation of step `s` shows, on the objects as the caller created them -/
 def fresh (q : Quirks) (n : Nat) (e : Expr) (h : Heap) (s : Step) : Out :=
   outOf (eval ⟨q, s.tz⟩ n e s.ρ h)
@@ -58,7 +71,9 @@ theorem repeatable (q : Quirks) (hq : q.heapSafe = true) (n : Nat) (e : Expr) :
       have hh : h' = h := (eval_frame ⟨q, s.tz⟩ n e s.ρ h v ρ' h' he).2 hq
       subst hh
       simp [ih, fresh, he, outOf]
-    · rename_i er he
+    · rename_i er ρ' h' he
+      have hh : h' = h := (eval_frameE ⟨q, s.tz⟩ n e s.ρ h er ρ' h' he).2 hq
+      subst hh
       simp [ih, fresh, he, outOf]
 
 /-- the order of the steps does not matter: step `s` gives the same answer wherever it stands -/
@@ -74,7 +89,7 @@ binds and whatever its value was. -/
 theorem binder_not_visible_outside (c : Cfg) (hq : c.q.callCopies = true) (n : Nat) (B : Expr) (x : Name)
     (ρ : Env) (h : Heap) (hx : ρ.lookup x = none) (v : Val) (ρ' : Env) (h' : Heap)
     (hB : eval c (n + 1) B ρ h = .ok (v, ρ', h')) :
-    eval c (n + 2) (.seq B (.var x)) ρ h = .error .unbound := by
+    eval c (n + 2) (.seq B (.var x)) ρ h = .error (.unbound, ρ, h') := by
   have := eval_env_unchanged c hq _ _ _ _ _ _ _ hB
   subst this
   rw [eval]
@@ -112,7 +127,7 @@ theorem eval_eq_sem (c : Cfg) (hq1 : c.q.callCopies = true) (hq2 : c.q.operandCo
     outOf (eval c n e ρ h) = semOut c.tz h n e ρ := by
   have hr := eval_sem_related c hq1 hq2 hq4 hq3 h n e true (dom ρ) ρ ρ (ws_lexical e (dom ρ)) (Inv.top hg)
   unfold semOut
-  rcases hr.cases with ⟨er, h1, h2⟩ | ⟨v1, v2, h1, h2, hv⟩
+  rcases hr.cases with ⟨er, _, _, h1, h2⟩ | ⟨v1, v2, h1, h2, hv⟩
   · rw [h1, h2]; rfl
   · rw [h1, h2]; simp only [outOf]; rw [obs_rel h hv]
 
@@ -126,7 +141,7 @@ theorem history_eq_sem (n : Nat) (e : Expr) (steps : List Step) (h : Heap)
   intro s hm
   exact eval_eq_sem ⟨.lexical, s.tz⟩ rfl rfl rfl rfl n e s.ρ h (hs s hm)
 
-/-- PARTIAL (finding F05c, tree WITHOUT its repair): on every program whose inline function bodies are closed in the
+/-- PARTIAL (tree WITHOUT the F05c repair, kept for the record): on every program whose inline function bodies are closed in the
 scope where they are DEFINED (`WS false true (dom ρ) e`; references outside function bodies are not
 restricted, so `(let $x := 1 return $x, $x)` is covered), started from atomic caller variables,
 the model returns exactly what the lexical specification returns: the same error, or the same
@@ -137,7 +152,7 @@ theorem eval_eq_sem_partial (c : Cfg) (hq1 : c.q.callCopies = true) (hq2 : c.q.o
     outOf (eval c n e ρ h) = semOut c.tz h n e ρ := by
   have hr := eval_sem_related c hq1 hq2 hq4 rfl h n e true (dom ρ) ρ ρ hw (Inv.top hg)
   unfold semOut
-  rcases hr.cases with ⟨er, h1, h2⟩ | ⟨v1, v2, h1, h2, hv⟩
+  rcases hr.cases with ⟨er, _, _, h1, h2⟩ | ⟨v1, v2, h1, h2, hv⟩
   · rw [h1, h2]; rfl
   · rw [h1, h2]; simp only [outOf]; rw [obs_rel h hv]
 
@@ -175,7 +190,7 @@ function is defined, or by a caller's variable), then no evaluation of `e` raise
 in the lexical specification nor in the model of the Python code, at any depth bound. -/
 theorem well_scoped_never_unbound (c : Cfg) (hq1 : c.q.callCopies = true) (hq2 : c.q.operandCopied = true)
     (hq4 : c.q.adjustCopied = true) (n : Nat) (e : Expr) (ρ : Env) (h : Heap) (hg : groundEnv ρ = true) (hw : WS false false (dom ρ) e = true) :
-    sem c.tz h n e ρ ≠ .error .unbound ∧ eval c n e ρ h ≠ .error .unbound := by
+    sem c.tz h n e ρ ≠ .error .unbound ∧ ∀ ρ' h', eval c n e ρ h ≠ .error (.unbound, ρ', h') := by
   have hi : ∀ lex, Inv lex none false (dom ρ) ρ ρ := by
     intro lex
     have := Inv.top (lex := lex) hg
@@ -186,9 +201,9 @@ theorem well_scoped_never_unbound (c : Cfg) (hq1 : c.q.callCopies = true) (hq2 :
     rw [he] at this
     exact this rfl
   refine ⟨hs, ?_⟩
-  intro hu
+  intro ρ' h' hu
   have hr := eval_sem_related c hq1 hq2 hq4 rfl h n e false (dom ρ) ρ ρ (by rw [ws_false_lex]; exact hw) (hi _)
-  rcases hr.cases with ⟨er, h1, h2⟩ | ⟨v1, v2, h1, _, _⟩
+  rcases hr.cases with ⟨er, _, _, h1, h2⟩ | ⟨v1, v2, h1, _, _⟩
   · rw [h1] at hu; cases hu; exact hs h2
   · rw [h1] at hu; cases hu
 
@@ -235,6 +250,21 @@ theorem f05b_pinned_history :
     runHistory .fixed 5 f05bWitness [⟨some 300, [(0, [.dtref 0])]⟩, ⟨some (-180), [(0, [.dtref 0])]⟩] [(0, none)]
       = ([.ok [.dur (-18000)], .ok [.dur 10800]], [(0, none)]) := by decide
 
+/-- `for $i in (1, 2) return ($d - xs:dateTime('2000-01-01T00:00:00Z'), $undefined)`: raises in the
+middle of a `for`, after the subtraction -/
+def failingWitness : Expr :=
+  .forE 1 (.paren (.seq (.int 1) (.int 2))) (.seq (.sub (.var 0) (.dt 0 (some 0))) (.var 9))
+
+/-- on the pinned tree the partial effect of the failing evaluation stays in the caller's object
+(`tzinfo = +05:00`) and the next evaluation, under −03:00, sees it; on the repaired trees the
+failing step leaves nothing behind.  So the hypotheses of `failing_eval_state_unchanged` are
+necessary. -/
+theorem failing_eval_pinned_keeps_partial_effect :
+    runHistory .pinned 8 failingWitness [⟨some 300, [(0, [.dtref 0])]⟩] [(0, none)]
+      = ([.err .unbound], [(0, some 300)]) ∧
+    runHistory .lexical 8 failingWitness [⟨some 300, [(0, [.dtref 0])]⟩] [(0, none)]
+      = ([.err .unbound], [(0, none)]) := by decide
+
 /-- `adjust-dateTime-to-timezone($d)` -/
 def adjustWitness : Expr := .adjust1 (.var 0)
 
@@ -254,7 +284,7 @@ theorem adjust_in_place_history :
 /-- TEST (literals): the hypotheses of `binder_not_visible_outside` are satisfiable —
 `(let $x := 1 return $x, $x)` with no `$x` in the caller's variables. -/
 example : eval ⟨.fixed, none⟩ 3 (.letE 0 (.int 1) (.var 0)) [] [] = .ok ([.int 1], [], []) ∧
-    eval ⟨.fixed, none⟩ 4 (.seq (.letE 0 (.int 1) (.var 0)) (.var 0)) [] [] = .error .unbound := by
+    eval ⟨.fixed, none⟩ 4 (.seq (.letE 0 (.int 1) (.var 0)) (.var 0)) [] [] = .error (.unbound, [], []) := by
   constructor <;> rfl
 
 /-- TEST (literals): the hypotheses of `eval_eq_sem_partial` hold on a non-trivial program with
